@@ -13,11 +13,14 @@ import (
 func VerifC02Profiles() {
 	var p url.Parser
 	pi := vnd.Pick(6)
+	// byte windows or windows of non-ASCII scalar values (decided first: the rune windows always use the
+	// all-options-on composition, the subsets of options are explored with byte windows)
+	runes := vnd.Bool()
 	if pi < 4 {
 		p = profiles[pi]
 	} else {
 		c := New().(*profile)
-		if vnd.Param("C02.AllSubsets", 0, 1) == 1 {
+		if !runes && vnd.Param("C02.AllSubsets", 0, 1) == 1 {
 			c.removeUserInfo = vnd.Bool()
 			c.removePort = vnd.Bool()
 			c.removeFragment = vnd.Bool()
@@ -33,7 +36,7 @@ func VerifC02Profiles() {
 		p = c
 	}
 	var in string
-	if vnd.Bool() {
+	if !runes {
 		in = windowInput(vnd.Param("C02.KProfiles", 2, 2))
 	} else {
 		// non-ASCII scalar values of every length: encoding override (Semantic), repeated decoding and
